@@ -42,7 +42,7 @@ def units(tier, seed):
                     if q and (pad != (0, 0) and seplens not in [(0, 0), (1, 1)]):
                         continue
                     out.append(dict(hfile='blanks.py', fname='blanks_env', args=(ci, en, pad, seplens, body), max_paths=100000))
-    for ti in range(34):
+    for ti in range(38):
         for n1, n2 in ([(1, 1), (2, 0)] if q else [(1, 1), (2, 0), (0, 2), (2, 1), (1, 2)]):
             out.append(dict(hfile='blanks.py', fname='template', args=(ti, n1, n2)))
     return out
@@ -51,5 +51,5 @@ def units(tier, seed):
 BOUNDS = ('commands with 1..3 (quick) / 1..4 bracket+brace groups in every order of kinds, every separator a run of 0..2 (0..3) '
           'blanks over {space, tab, LF, CR} (a blank line included), 6 contexts, plain and fixed-signature names; '
           'environments with blank-padded names and blanks before their arguments (plain, verbatim-like, math, list names); '
-          '34 malformed-but-parseable templates (brackets without partner, groups/brackets after \\end{..}, stray closers, '
+          '38 malformed-but-parseable templates (brackets without partner, groups/brackets after \\end{..}, stray closers, '
           'blank lines before groups, twin arguments) with symbolic text holes')
